@@ -22,7 +22,7 @@ type symUniverse struct {
 	src      map[string]string // leaf files (they import base.proto only)
 	names    []string
 	base     string
-	planted  string // "", "name" or "extension"
+	planted  string // "", "name", "extension" or "package"
 	symbols  map[string][]string // full name -> defining files
 	extNums  map[int32][]string  // extension number (of base.Ext) -> defining files
 	dupFiles [2]string
@@ -104,6 +104,41 @@ func genUniverse(rng *vlib.RNG, prefix string, k int, planted string) *symUniver
 				}
 				def("collide.Dup")
 				def(fmt.Sprintf("collide.Dup.from%d", i))
+			case "package":
+				// a message whose full name is the package of another file (either may reach the table first)
+				sb.Reset()
+				if i == a {
+					fmt.Fprintf(&sb, "syntax = \"proto2\";\npackage collide.sub;\nimport \"%s\";\nmessage InSub%d { optional int32 v = 1; }\n", u.base, i)
+				} else {
+					fmt.Fprintf(&sb, "syntax = \"proto2\";\npackage collide;\nimport \"%s\";\nmessage sub { optional int32 from%d = 1; }\n", u.base, i)
+				}
+				for kname, files := range u.symbols {
+					var keep []string
+					for _, f := range files {
+						if f != name {
+							keep = append(keep, f)
+						}
+					}
+					if len(keep) == 0 {
+						delete(u.symbols, kname)
+					} else {
+						u.symbols[kname] = keep
+					}
+				}
+				for num, files := range u.extNums {
+					var keep []string
+					for _, f := range files {
+						if f != name {
+							keep = append(keep, f)
+						}
+					}
+					if len(keep) == 0 {
+						delete(u.extNums, num)
+					} else {
+						u.extNums[num] = keep
+					}
+				}
+				def("collide.sub")
 			case "extension":
 				fmt.Fprintf(&sb, "extend base.Ext { optional string dupext%d = 77777; }\n", i)
 				def(fmt.Sprintf("%s.dupext%d", pkg, i))
@@ -163,8 +198,8 @@ func TestC16(t *testing.T) {
 	r := vlib.Start(t, "C16")
 	defer r.Finish()
 	p := vlib.InstallPerturber()
-	r.Extra("rule", "universes of 4-10 leaf files importing one shared, already linked base file (the dependency object is shared between compilations); in 1/3 of the universes a duplicate fully-qualified name, "+
-		"in 1/3 a duplicate (extendee, number) is planted in two files that do not import each other. Joint = one compilation of all leaves with a fresh table; split = every leaf partitioned into 1-4 compilations "+
+	r.Extra("rule", "universes of 4-10 leaf files importing one shared, already linked base file (the dependency object is shared between compilations); in 1/4 of the universes a duplicate fully-qualified name, "+
+		"in 1/4 a duplicate (extendee, number), in 1/4 a message whose full name is the package of another file is planted in two files that do not import each other. Joint = one compilation of all leaves with a fresh table; split = every leaf partitioned into 1-4 compilations "+
 		"sharing one table, run sequentially or concurrently, while 4-16 goroutines call Lookup/LookupExtension on names of the universe (defined, not yet imported, never defined, package prefixes); "+
 		"race detector + perturbation at the symbols.go hook points. non-trivial = universe with >=2 compilations sharing the table; distinct = (universe, partition, mode)")
 	r.Extra("assumptions", []string{"collision truth is known by construction", "a data race in linker/symbols.go refutes 'usable from any number of goroutines' (reported by the driver from the race log)"})
@@ -182,7 +217,7 @@ func TestC16(t *testing.T) {
 		for rep := 0; rep < reps; rep++ {
 			rng := r.Rng(id)
 			prefix := fmt.Sprintf("k%d/", caseCtr.Add(1))
-			planted := []string{"", "name", "extension"}[i%3]
+			planted := []string{"", "name", "extension", "package"}[i%4]
 			k := rng.Range(4, 10)
 			u := genUniverse(rng, prefix, k, planted)
 			p.SetSeed(r.Seed*131+uint64(i+rep*7919), []string{"symbols.importPackage.beforeUpgrade", "symbols.import.afterImportedCheck", "symbols.importResult.afterCommit", "symbols.lookup.afterGetPackage", "symbols.addExtension.enter", ""}[(i+rep)%6])
